@@ -477,8 +477,11 @@ impl Interp {
         k < t.len() && t[k].is_none()
     }
 
+    /// Stores a pointer in `H[k]`; an entry filled meanwhile by a callback is dropped afterwards
+    /// (with the table no longer borrowed).
     fn put_h(&self, k: usize, cc: Cc<Node>) {
-        self.h.borrow_mut()[k] = Some(cc);
+        let old = self.h.borrow_mut()[k].replace(cc);
+        drop(old);
     }
 
     fn make_node(&self, id: usize, sp: &NewSpec) -> Node {
